@@ -239,6 +239,9 @@ def run(ctx) -> Report:
         "complex_mode guards of the pipeline checked on the AST."
     )
     rep.assumptions = ["arguments, geometric quantities and real literals are real; coefficients, constants and complex literals may be complex", "completeness (accepting every real comparison) is not required by the property and not checked"]
+    from ..memokey import memo_rule
+
+    memo_rule(ctx, rep, "C23-key", ['ufl.algorithms.comparison_checker', 'ufl.algorithms.remove_complex_nodes'])
     return rep
 
 
